@@ -279,6 +279,22 @@ CLAIMED["C19"] = dict(
    technique="Coq proof (promotion lattice, counting argument, real margins, table by computation) + float32/float64 differential search",
    design="DESIGN.md section 4, C19")
 
+CLAIMED["C12"] = dict(
+   text="Axiom-free Coq theorems: a batch function that is the map of a row function equals evaluating the rows one at a "
+        "time, commutes with every re-indexing of the batch (permutation, selection, duplication) and gives each row the "
+        "same result whatever rows surround it; the two places in the library where rows could mix are such maps: the "
+        "1x1 convolution's flatten-all-pixels / per-row linear map / cut-back pipeline equals the per-item map (via the "
+        "chunks/concat lemmas of C20), and the boolean-mask gather / scatter of the unconstrained splines is an "
+        "elementwise map. Together with the index-map theorems of C07 (coupling), C08 (composition, multiscale) and C20 "
+        "(merge / split / repeat_rows) every transform is built from row-preserving pieces. The extracted pipeline is "
+        "compared with the real OneByOneConvolution; the search evaluates every catalogue transform (2-D and images with "
+        "h != w), six distributions and a flow on a batch, on each row alone, on a permuted batch and among extra rows.",
+   note="Trusted: Coq kernel (no axioms); extraction; harness. Comparison is bit-exact except for matrix products, where "
+        "BLAS blocking may change the last bits between batch sizes (a few ulps accepted, counted in the evidence). "
+        "Batch-global by design: domain checks (torch.min/max over the batch) and BatchNorm in training mode.",
+   technique="Coq proof (map / chunks / concat lemmas, axiom-free) + extracted-pipeline correspondence + row-vs-batch search",
+   design="DESIGN.md section 4, C12")
+
 def main():
     checks = []
     for pid in ALL:
